@@ -62,6 +62,21 @@ theorem nameIndex_lt : ∀ (names : List Bytes) (k : Bytes) (i : Nat), FromValue
         have := nameIndex_lt r k j hr
         simp; omega
 
+theorem nameIndex_get : ∀ (names : List Bytes) (k : Bytes) (i : Nat), FromValue.nameIndex names k = some i → names[i]? = some k
+  | [], k, i, h => by simp [FromValue.nameIndex] at h
+  | n :: r, k, i, h => by
+    simp only [FromValue.nameIndex] at h
+    split at h
+    · rename_i hn
+      simp at h; subst h
+      simp at hn; simp [hn]
+    · cases hr : FromValue.nameIndex r k with
+      | none => simp [hr] at h
+      | some j =>
+        simp [hr] at h
+        subst h
+        simpa using nameIndex_get r k j hr
+
 /-- the unit access of a string-form enum: only unit variants -/
 theorem shapeDe_none (cfg : FromValue.Cfg) (e : FromValue.Ext) (sh : VariantShape) :
     FromValue.shapeDe cfg e sh none = (match sh with | .unit => .ok .unit | _ => FromValue.fail) := by
@@ -88,7 +103,7 @@ include hext hflt hap in
 theorem agree_enum (vs : List (Bytes × VariantShape)) (f t : Nat) (v : JV) (hv : VOK v) (hd : DepthOK env t v)
     (hp : ∀ kvs, v = .obj kvs → ∀ nm sh, (nm, sh) ∈ vs → ∀ kv ∈ kvs,
       Agree1 (dePayload env (t + 1) (deTyped env f) sh) (payloadFV cfg' ext' sh kv.2) (T ext kv.2))
-    (hex : ∀ k x, v = .obj [(k, x)] → ∀ nm sh, (nm, sh) ∈ vs →
+    (hex : ∀ k x, v = .obj [(k, x)] → ∀ sh, (k, sh) ∈ vs →
       FromValue.shapeDe cfg' ext' sh (some x) = payloadFV cfg' ext' sh x) :
     Agree1 (deTyped env (f + 1) t (.enum_ vs)) (FromValue.fromValue cfg' ext' (.enum_ vs) v) (T ext v) := by
   intro rest pos hs
@@ -231,7 +246,12 @@ theorem agree_enum (vs : List (Bytes × VariantShape)) (f t : Nat) (v : JV) (hv 
             have hfv : FromValue.fromValue cfg' ext' (.enum_ vs) (.obj [(k, x)]) =
                 (payloadFV cfg' ext' sh x).map (.variant i) := by
               simp only [FromValue.fromValue, variantDe_spec, hni, hvi, Nat.zero_add]
-              rw [hex k x rfl nm sh hmem]
+              have hnm : nm = k := by
+                have h1 := nameIndex_get (variantNames vs) k i hni
+                simp only [variantNames, List.getElem?_map, hvi, Option.map_some, Option.some.injEq] at h1
+                exact h1
+              subst hnm
+              rw [hex nm x rfl sh hmem]
             rw [hfv]
             cases hpv : payloadFV cfg' ext' sh x with
             | error e =>
